@@ -727,40 +727,66 @@ func ruleFX2(c *Ctx) *rule {
 		if !cond["opt:Fmt=true"] {
 			continue
 		}
-		n++
 		key := fmt.Sprintf("%s %s [fmt]", fname(m.fn), m.callee)
-		if m.callee != "os.WriteFile" {
+		args := m.site.Common().Args
+		var pathArg, dataArg ssa.Value
+		var probs []string
+		switch m.callee {
+		case "os.WriteFile":
+			n++
+			pathArg, dataArg = args[0], args[1]
+		case "os.OpenFile", "os.Create":
+			// an explicit open-write-close is the same write as long as the open truncates
+			n++
+			pathArg = args[0]
+			if m.callee == "os.OpenFile" {
+				if fl, isC := constInt(args[1]); !isC {
+					probs = append(probs, "the open flags are not constant")
+				} else if fl&osConst(c.Prog, "O_TRUNC") == 0 {
+					probs = append(probs, "the spokfile is opened for writing without O_TRUNC: when the formatted text is shorter, the tail of the old file stays behind it")
+				} else if fl&osConst(c.Prog, "O_APPEND") != 0 {
+					probs = append(probs, "the spokfile is opened with O_APPEND")
+				}
+			}
+		case "(*os.File).Write", "(*os.File).WriteString":
+			dataArg = args[1]
+		case "(*os.File).Sync", "(*os.File).Close", "(*os.File).Chmod":
+			continue
+		default:
+			n++
 			r.bad(key, c.ipos(m.site), "--fmt performs a file mutation other than writing the spokfile")
 			continue
 		}
-		args := m.site.Common().Args
-		ps := c.newSlicer()
-		ps.depth = 0
-		pres := ps.run(args[0])
-		ds := c.newSlicer()
-		ds.depth = 0
-		ds.objFlow = true
-		dres := ds.run(args[1])
-		var probs []string
-		if !pres.hasField("cli/app.Options.Spokfile") || len(pres.callNames()) > 0 {
-			probs = append(probs, "the path is not exactly Options.Spokfile")
-		}
-		if !(dres.hasCall("(github.com/FollowTheProcess/spok/ast.Tree).String") || dres.hasCall("(github.com/FollowTheProcess/spok/ast.Tree).Write")) || !dres.hasCall("(*github.com/FollowTheProcess/spok/parser.Parser).Parse") {
-			probs = append(probs, "the data is not Tree.String() of the parsed tree")
-		}
-		// the parsed text was read from the same field
-		readOK := false
-		for _, rs := range callsTo(m.fn, "os.ReadFile") {
-			rs2 := c.newSlicer()
-			rs2.depth = 0
-			if rs2.run(rs.Common().Args[0]).hasField("cli/app.Options.Spokfile") {
-				if v, ok := rs.(ssa.Value); ok && dres.has(v) {
-					readOK = true
-				}
+		if pathArg != nil {
+			ps := c.newSlicer()
+			ps.depth = 0
+			pres := ps.run(pathArg)
+			if !pres.hasField("cli/app.Options.Spokfile") || len(pres.callNames()) > 0 {
+				probs = append(probs, "the path is not exactly Options.Spokfile")
 			}
 		}
-		if !readOK {
-			probs = append(probs, "the formatted text was not read from Options.Spokfile")
+		if dataArg != nil {
+			ds := c.newSlicer()
+			ds.depth = 0
+			ds.objFlow = true
+			dres := ds.run(dataArg)
+			if !(dres.hasCall("(github.com/FollowTheProcess/spok/ast.Tree).String") || dres.hasCall("(github.com/FollowTheProcess/spok/ast.Tree).Write")) || !dres.hasCall("(*github.com/FollowTheProcess/spok/parser.Parser).Parse") {
+				probs = append(probs, "the data is not Tree.String() of the parsed tree")
+			}
+			// the parsed text was read from the same field
+			readOK := false
+			for _, rs := range callsTo(m.fn, "os.ReadFile") {
+				rs2 := c.newSlicer()
+				rs2.depth = 0
+				if rs2.run(rs.Common().Args[0]).hasField("cli/app.Options.Spokfile") {
+					if v, ok := rs.(ssa.Value); ok && dres.has(v) {
+						readOK = true
+					}
+				}
+			}
+			if !readOK {
+				probs = append(probs, "the formatted text was not read from Options.Spokfile")
+			}
 		}
 		// no store to Options.Spokfile between read and write: stores only in functions that are not called in between
 		// dominated by success of Parse and file.New
@@ -795,7 +821,7 @@ func ruleFX2(c *Ctx) *rule {
 		}
 	}
 	if n != 1 {
-		r.bad("module fmt-sites", "-", fmt.Sprintf("%d file-mutating sites under Options.Fmt, exactly one expected", n))
+		r.bad("module fmt-sites", "-", fmt.Sprintf("%d files opened or written under Options.Fmt, exactly one expected", n))
 	}
 	return r
 }
